@@ -55,6 +55,8 @@ static upstate UPS[2];
 #define UP UPS[0]
 #define UPB UPS[1]
 static upstate *up_cur; /* the pool whose callback is running */
+static ABT_sched addsched_pending[64]; /* stacked schedulers that are not automatic: freed once their stream was joined */
+static int addsched_npending;
 static ABT_thread revive_t;
 static upstate *up_of(ABT_pool pool)
 {
@@ -188,6 +190,9 @@ static void up18_teardown(void)
         return;
     ABT_OK(ABT_xstream_join(UP.xs));
     ABT_OK(ABT_xstream_free(&UP.xs));
+    for (int i = 0; i < addsched_npending; i++)
+        ABT_OK(ABT_sched_free(&addsched_pending[i]));
+    addsched_npending = 0;
     ABT_OK(ABT_pool_free(&UP.pool));
     SIM_CHECK(UP.creates == UP.frees, "upool:unit-leaked", "user pool: %ld units created, %ld freed", UP.creates, UP.frees);
     UP.inited = 0;
@@ -579,6 +584,7 @@ static void u_set_main_sched_then_free(void **h)
     long live = UP.creates - UP.frees;
     ABT_OK(ABT_xstream_free(&jfree_xs));
     jfree_xs = ABT_XSTREAM_NULL;
+    addsched_npending = 0;
     SIM_CHECK(UP.creates - UP.frees == live - 1, "upool:unit-leaked",
               "freeing a joined stream whose main scheduler's ULT is a unit of the user-defined pool left %ld live units there (%ld before the free): free_unit was not called for it",
               UP.creates - UP.frees, live);
@@ -669,21 +675,14 @@ static int d_pool_add_sched_upool(void **h)
 static void u_pool_add_sched_upool(void **h)
 {
     /* the scheduler runs on the user pool's stream, finds its own pool empty and ends; an
-     * automatic one is released by the runtime, the other one by us */
+     * automatic one is released by the runtime.  One that is not automatic may be freed by us
+     * only when the stream that runs it cannot be touching it any more: after that stream was
+     * joined (up18_teardown) */
     ABT_sched sched = (ABT_sched)*h;
     while (UP.creates != UP.frees)
         ABT_OK(ABT_thread_yield());
-    if (!addsched_automatic) {
-        /* the runtime marks the scheduler as unused when it releases the scheduler's ULT, a few
-         * steps after that ULT's unit was given back: until then ABT_sched_free refuses */
-        for (;;) {
-            int rc = ABT_sched_free(&sched);
-            if (rc == ABT_SUCCESS)
-                break;
-            SIM_CHECK(rc == ABT_ERR_SCHED, "api-error", "ABT_sched_free of the finished stacked scheduler returned %d", rc);
-            ABT_OK(ABT_thread_yield());
-        }
-    }
+    if (!addsched_automatic && addsched_npending < 64)
+        addsched_pending[addsched_npending++] = sched;
 }
 static int d_pool_create_user(void **h)
 {
